@@ -375,9 +375,7 @@ where
             "Expected self.capacity to be a power of two"
         );
         let len_mask = len - 1;
-        // improve uniformity via fibonacci hashing
-        // in wasm sizeof usize is 4, so multiply our already 32 bit hash
-        let mut ind = (needle.0.wrapping_mul(2654435769) as usize) & len_mask;
+        let mut ind = Self::optimal_ind(needle, len_mask);
         let ptr = self.handles.as_ptr();
         loop {
             debug_assert!(ind < len);
@@ -387,6 +385,14 @@ where
             }
             ind = (ind + 1) & len_mask;
         }
+    }
+
+    /// The bucket where probing for `handle` starts
+    #[inline]
+    fn optimal_ind(handle: Handle, len_mask: usize) -> usize {
+        // improve uniformity via fibonacci hashing
+        // in wasm sizeof usize is 4, so multiply our already 32 bit hash
+        (handle.0.wrapping_mul(2654435769) as usize) & len_mask
     }
 
     pub fn iter(&self) -> impl Iterator<Item = (Handle, &'_ T)> + '_ {
@@ -531,7 +537,33 @@ where
             if (*kptr).0 != 0 {
                 self.count -= 1;
                 *kptr = Handle(0);
-                Some(std::ptr::read(self.values.as_ptr().add(ind)))
+                let result = std::ptr::read(self.values.as_ptr().add(ind));
+
+                // move the following entries back, so that probing, which stops at the first
+                // empty bucket, still finds them
+                let len_mask = self.capacity - 1;
+                let handles = self.handles.as_ptr();
+                let values = self.values.as_ptr();
+                let mut i = ind; // the empty bucket
+                let mut j = (i + 1) & len_mask;
+                while (*handles.add(j)).0 != 0 {
+                    let home = Self::optimal_ind(*handles.add(j), len_mask);
+                    // the jth entry has to stay if its optimal bucket lies (cyclically) after
+                    // the empty bucket, up to and including j
+                    let stays = if i <= j {
+                        i < home && home <= j
+                    } else {
+                        i < home || home <= j
+                    };
+                    if !stays {
+                        *handles.add(i) = *handles.add(j);
+                        std::ptr::copy_nonoverlapping(values.add(j), values.add(i), 1);
+                        *handles.add(j) = Handle(0);
+                        i = j;
+                    }
+                    j = (j + 1) & len_mask;
+                }
+                Some(result)
             } else {
                 None
             }
